@@ -209,7 +209,7 @@ func ZZ_C09_StartRevisionConflict() {
 			if zzmodel.Replicas[zzAddrs[i]].RevCounter != max {
 				zzReach("C09.conflict")
 				zzAssert(e.modeOf(zzAddrs[i]) != types.RW, "C09.stale-replica-left-RW-at-start")
-				for _, a := range c.backend.readerIndex {
+				for _, a := range zzReaderAddrs(c) {
 					zzAssert(a != zzAddrs[i], "C09.stale-replica-is-reader-after-start")
 				}
 			}
